@@ -29,7 +29,7 @@ CLAIMED = {
         tech="Lean 4 proof over regenerated codec tables + differential correspondence"),
     "C16": dict(
         text="Machine-checked proofs (Lean 4 kernel): the decimal rendering model is injective, digits-only, has no "
-             "leading zero and parses back, for every natural number; MapClear (now the builtin clear, after repair 9ef6e58) leaves "
+             "leading zero, has exactly as many characters as the number has digits (at most 20, and 20 from 10^19, for uint64) and parses back, for every natural number; MapClear (now the builtin clear, after repair 9ef6e58) leaves "
              "any map empty and usable, and the earlier range/delete loop is proved right for reflexive keys and wrong "
              "for NaN-like keys under every iteration order; Assume/Assert panic iff the argument is false; the "
              "WaitTimeout protocol (caller, helper goroutine, timer, signals, other lock users) returns with the "
